@@ -30,7 +30,7 @@ class Instance:
     def line(self):
         w = self.where or {}
         return "%s:%s %s — %s [%s] %s" % (w.get("file", "?"), w.get("line", "?"), w.get("function", "?"),
-                                           w.get("construct", ""), self.rule, self.msg)
+                                           str(w.get("construct", "")).replace("\n", " "), self.rule, self.msg)
 
 
 class Report:
